@@ -688,7 +688,7 @@ func (fx *FnExec) doIndexAddr(st *State, fr *frame, x *ssa.IndexAddr) {
 	case *types.Slice:
 		es := fx.sortOf(u.Elem())
 		fx.emit(st, fr, "bounds", fx.ord(fr.fn, x, "index"), "(and (<= 0 "+iv+") (< "+iv+" (slen "+xv+")))", nil, "")
-		st.lvs[x] = &LValue{kind: lvElem, heap: "Mem." + sanitize(es), heapSort: "(Array Int " + arrOf(es) + ")", idx: "(sptr " + xv + ")", idx2: "(+ (soff " + xv + ") " + iv + ")", elemSort: es, typ: u.Elem()}
+		st.lvs[x] = &LValue{kind: lvElem, heap: "Mem." + sanitize(es), heapSort: "(Array Int " + arrOf(es) + ")", idx: "(sptr " + xv + ")", idx2: iv, off: "(soff " + xv + ")", elemSort: es, typ: u.Elem()}
 		st.vals[x] = "0"
 	case *types.Pointer:
 		at := u.Elem().Underlying().(*types.Array)
